@@ -8,7 +8,7 @@ TRUSTED_BASE = [
 ]
 
 COMMON_ASSUMPTIONS = [
-    "DataProvider is a function of the key within one call and may answer any lookup with any item (an item whose own Key differs from the lookup key is allowed and generated) or nil; BigSegmentProvider is a pure function of the key within one call and returns one of the four status constants",
+    "DataProvider is a function of the key within one call and may answer any lookup with any item (an item whose own Key differs from the lookup key is allowed and generated) or nil; BigSegmentProvider is a pure function of the key within one call; its status is an arbitrary string (the four constants, anything else, or empty — all modelled and generated)",
     "inputs are valid UTF-8 strings and finite numbers; unparsed ldvalue.Raw values hold valid JSON text (they are modelled and generated in context attributes)",
 ]
 
